@@ -144,3 +144,29 @@ class Run:
             print(l)
         sys.stdout.flush()
         return 1 if nviol else 0
+
+
+class Prefixed:
+    """view of a Run that files every instance under `<prefix><rule>`: used when one property's check re-runs the
+    obligations of another property for exactly the functions it depends on (call-graph closure)"""
+
+    def __init__(self, run, prefix):
+        self._run, self._p = run, prefix
+
+    def __getattr__(self, k):
+        return getattr(self._run, k)
+
+    def ok(self, rule, *a, **kw):
+        return self._run.ok(self._p + rule, *a, **kw)
+
+    def fail(self, rule, *a, **kw):
+        return self._run.fail(self._p + rule, *a, **kw)
+
+    def unproven(self, rule, *a, **kw):
+        return self._run.unproven(self._p + rule, *a, **kw)
+
+    def check(self, cond, rule, *a, **kw):
+        return self._run.check(cond, self._p + rule, *a, **kw)
+
+    def floor(self, rule, *a, **kw):
+        return self._run.floor(self._p + rule, *a, **kw)
